@@ -7,12 +7,13 @@
      Simplify_sound  env_ok, soundness of every non-quantifier node function
      Simplify_quant  soundness of walk_exists / walk_forall, the main induction
      Simplify_nf     normal form, idempotence
+     Simplify_raises where walk_div raises, the expression has no value
    This file states the results about the top-level [simplify]. *)
 From Coq Require Import List ZArith NArith QArith Qcanon Bool.
 Import ListNotations.
 Require Import UPV.Core.Expr UPV.Core.Eval UPV.Walkers.Simplify.
 Require Export UPV.Proofs.Simplify_base UPV.Proofs.Simplify_fv UPV.Proofs.Simplify_sem UPV.Proofs.Simplify_wf
-  UPV.Proofs.Simplify_wfp UPV.Proofs.Simplify_sound UPV.Proofs.Simplify_quant UPV.Proofs.Simplify_nf.
+  UPV.Proofs.Simplify_wfp UPV.Proofs.Simplify_sound UPV.Proofs.Simplify_quant UPV.Proofs.Simplify_nf UPV.Proofs.Simplify_raises.
 
 Lemma simplify_some G e e' : simplify G e = Some e' -> e' = simp G (size e) e.
 Proof. unfold simplify. destruct (simp_ok G (size e) e); [|discriminate]. intros H; inversion H; reflexivity. Qed.
@@ -42,3 +43,8 @@ Theorem simp_sound_any_fuel G tau QT S n e I v :
   cfg_consts G -> wfx tau QT S e = true -> env_ok G tau QT I ->
   eval false e I = Some v -> eval false (simp G n e) I = Some v.
 Proof. intros HG W E. apply (simp_sound G tau QT HG n e S I W E). Qed.
+
+(* the Python code raises only on a divisor that simplifies to the constant 0; such an expression has no value *)
+Theorem raises_only_without_value G tau QT strict S n e I :
+  cfg_consts G -> wfx tau QT S e = true -> env_ok G tau QT I -> raises G strict n e = true -> eval false e I = None.
+Proof. intros HG W E. apply (raises_no_value G tau QT strict HG n e S I W E). Qed.
